@@ -3221,6 +3221,11 @@ impl Server {
             }
         }
         
+        // Inside EXEC (no connection context) a blocking pop never blocks: nothing to pop is nil
+        if conn_id == 0 {
+            return Ok(RespFrame::null_array());
+        }
+        
         // No data available, register as blocked
         let deadline = timeout.map(|t| Instant::now() + t);
         self.blocking_manager.register_blocked(db_index, conn_id, keys.clone(), BlockingOp::BLPop, deadline)?;
@@ -3278,6 +3283,11 @@ impl Server {
                     RespFrame::from_bytes(value),
                 ])));
             }
+        }
+        
+        // Inside EXEC (no connection context) a blocking pop never blocks: nothing to pop is nil
+        if conn_id == 0 {
+            return Ok(RespFrame::null_array());
         }
         
         // No data available, register as blocked
